@@ -24,7 +24,12 @@ pub fn roto_bin() -> PathBuf {
 }
 
 pub fn work_dir() -> PathBuf {
-    vcore::out_root().join("work").join("c19")
+    vcore::out_root().join("work").join("c19").join("base")
+}
+
+/// directory of the second CLI unit (`clidirs.rs`)
+pub fn dirs_dir() -> PathBuf {
+    vcore::out_root().join("work").join("c19").join("dirs")
 }
 
 /// `cargo build --bin roto` of the tree under test (incremental: seconds)
@@ -346,14 +351,14 @@ pub fn describe(sub: u64) -> Value {
     })
 }
 
-struct Out {
-    code: Option<i32>,
-    stdout: String,
-    stderr: String,
-    timed_out: bool,
+pub struct Out {
+    pub code: Option<i32>,
+    pub stdout: String,
+    pub stderr: String,
+    pub timed_out: bool,
 }
 
-fn launch(bin: &Path, dir: &Path, argv: &[String], tag: u64) -> Result<Out, String> {
+pub fn launch(bin: &Path, dir: &Path, argv: &[String], tag: u64) -> Result<Out, String> {
     let so = dir.join(format!(".stdout-{tag}"));
     let se = dir.join(format!(".stderr-{tag}"));
     let fo = std::fs::File::create(&so).map_err(|e| e.to_string())?;
@@ -390,7 +395,7 @@ fn launch(bin: &Path, dir: &Path, argv: &[String], tag: u64) -> Result<Out, Stri
     Ok(Out { code: status.and_then(|s| s.code()), stdout, stderr, timed_out })
 }
 
-fn count_mark(stdout: &str, mark: &str) -> usize {
+pub fn count_mark(stdout: &str, mark: &str) -> usize {
     let line = format!("MARK-{mark}");
     stdout.lines().filter(|l| l.trim_end().ends_with(&line)).count()
 }
@@ -519,7 +524,7 @@ pub fn run(cx: &mut Cx) {
     cx.count("cli_unit_ms", started.elapsed().as_millis() as u64);
 }
 
-fn tail(s: &str) -> String {
+pub fn tail(s: &str) -> String {
     let lines: Vec<&str> = s.lines().collect();
     let from = lines.len().saturating_sub(12);
     lines[from..].join("\n").chars().take(1500).collect()
